@@ -212,6 +212,7 @@ async fn exec_inner(t: Trace) -> Outcome {
     let wit = w.open("10.0.0.1", false);
     w.apply(&Action::line(wit, "NICK wit")).await;
     w.apply(&Action::line(wit, "USER wit 0 * :Witness")).await;
+    // w.apply(&Action::line(wit, "JOIN #k")).await;
     let mut subs: Vec<Subj> = vec![];
     for (i, p) in pats.iter().enumerate() {
         let c = w.open(&format!("10.0.0.{}", i + 2), false);
@@ -521,10 +522,13 @@ async fn exec_inner(t: Trace) -> Outcome {
             let _ = w.observe();
             w.apply(&Action::line(wit, &format!("ISON {}", dropped.join(" ")))).await;
             w.apply(&Action::line(wit, &format!("WHOWAS {}", dropped[0]))).await;
+            w.apply(&Action::line(wit, "NAMES #k")).await;
+            w.apply(&Action::line(wit, &format!("WHOIS {}", dropped.join(",")))).await;
             w.settle().await;
             let obs = w.observe();
             let mut ison_ok = false;
             let mut whowas_ok = false;
+            let mut roster_ok = true;
             for l in &obs[wit].lines {
                 if let Some(p) = irc::parse(l) {
                     if p.cmd == "303" && p.params.last().map_or(false, |x| x.trim().is_empty()) {
@@ -533,10 +537,19 @@ async fn exec_inner(t: Trace) -> Outcome {
                     if p.cmd == "314" {
                         whowas_ok = true;
                     }
+                    if p.cmd == "353" {
+                        let names: Vec<String> = p.params.last().map(|x| x.split(' ').map(|n| n.trim_start_matches(|c| "~&@%+".contains(c)).to_string()).collect()).unwrap_or_default();
+                        if dropped.iter().any(|d| names.contains(d)) {
+                            roster_ok = false;
+                        }
+                    }
+                    if p.cmd == "311" {
+                        roster_ok = false;
+                    }
                 }
             }
-            if !ison_ok || !whowas_ok {
-                viol = Some(mk("residue_after_timeout", format!("after the ping timeout of {:?}: ISON empty={} WHOWAS record={} ({:?})", dropped, ison_ok, whowas_ok, obs[wit].lines)));
+            if !ison_ok || !whowas_ok || !roster_ok {
+                viol = Some(mk("residue_after_timeout", format!("after the ping timeout of {:?}: ISON empty={} WHOWAS record={} gone from rosters/WHOIS={} ({:?})", dropped, ison_ok, whowas_ok, roster_ok, obs[wit].lines)));
             } else {
                 out.count("residue_probe_ok", 1);
             }
